@@ -138,6 +138,25 @@ def fns_of(block):
     return out
 
 
+FREE_FN_RE = re.compile(r"^(?:pub(?:\([^)]*\))?\s+)?(?:const\s+)?(?:unsafe\s+)?fn\s+(\w+)", re.M)
+
+
+def free_fns(region):
+    """{name: (params, ret, body)} of the functions at the top level of the file (column 0)"""
+    out = {}
+    for m in FREE_FN_RE.finditer(region):
+        k = region.find("{", m.end())
+        if k < 0:
+            continue
+        be = match_close(region, k + 1, "{", "}")
+        one = fns_of(region[m.start():be])
+        if m.group(1) in one:
+            if m.group(1) in out:
+                raise TErr(f"fn {m.group(1)} occurs twice at the top level")
+            out[m.group(1)] = one[m.group(1)]
+    return out
+
+
 def squeeze(s):
     return " ".join(s.split())
 
@@ -433,7 +452,18 @@ class Parser:
         e = self.unary(stmt)
         while self.peek() == "as":
             self.eat()
-            e = ("cast", e, self.eat())
+            if self.peek() == "*":
+                # `as *const T<..>` / `as *mut T<..>`
+                self.eat()
+                q = self.eat()
+                if q not in ("const", "mut"):
+                    raise TErr("cannot read the pointer type of a cast")
+                ty = self.eat()
+                if self.peek() == "<":
+                    ty += "<" + self.turbofish() + ">"
+                e = ("cast", e, "*" + q + " " + ty)
+            else:
+                e = ("cast", e, self.eat())
         return e
 
     def unary(self, stmt=False):
@@ -453,6 +483,47 @@ class Parser:
                 self.eat()
             return ("un", "&", self.unary())
         return self.postfix(stmt)
+
+    def match_cmp(self):
+        """`match a.cmp(&b) { Ordering::Less => x, Ordering::Greater => y, Ordering::Equal => z }` (any order of the
+        three arms) is read as `if a < b { x } else if a > b { y } else { z }`; `a`, `b` must be variables / field paths
+        (evaluating them twice is then not observable).  Any other `match` is outside the supported subset."""
+        self.eat("match")
+        self.no_struct += 1
+        scrut = self.expr()
+        self.no_struct -= 1
+        sc = strip_wrappers(scrut)
+        ok = sc[0] == "mcall" and sc[2] == "cmp" and len(sc[4]) == 1
+        if ok:
+            a, b = strip_wrappers(sc[1]), strip_wrappers(sc[4][0])
+            if b[0] == "un" and b[1] == "&":
+                b = strip_wrappers(b[2])
+            simple = lambda x: x[0] == "var" or (x[0] == "field" and simple(strip_wrappers(x[1])))
+            ok = simple(a) and simple(b)
+        if not ok:
+            raise TErr("`match` is supported only on `a.cmp(&b)` with variables / field paths `a`, `b`")
+        self.eat("{")
+        arms = {}
+        while self.peek() != "}":
+            segs = [self.eat()]
+            while self.peek() == "::":
+                self.eat()
+                segs.append(self.eat())
+            if len(segs) < 2 or segs[-2] != "Ordering" or segs[-1] not in ("Less", "Greater", "Equal") or segs[-1] in arms:
+                raise TErr("`match a.cmp(&b)`: the arms must be `Ordering::Less`, `Ordering::Greater`, `Ordering::Equal`")
+            self.eat("=>")
+            if self.peek() == "{":
+                arm = self.braced()
+            else:
+                arm = [("expr", self.expr(), False)]
+            if self.peek() == ",":
+                self.eat()
+            arms[segs[-1]] = arm
+        self.eat("}")
+        if len(arms) != 3:
+            raise TErr("`match a.cmp(&b)`: all three arms are needed")
+        return ("if", ("bin", "<", a, b), arms["Less"],
+                [("expr", ("if", ("bin", ">", a, b), arms["Greater"], arms["Equal"]), False)])
 
     def closure(self):
         if self.peek() == "move":
@@ -623,7 +694,7 @@ class Parser:
             self.no_struct -= 1
             return ("for", pat, it, self.braced())
         if cur == "match":
-            raise TErr("`match` is outside the supported subset")
+            return self.match_cmp()
         if cur.startswith('"'):
             self.eat()
             return ("str", cur)
@@ -746,6 +817,10 @@ def unparse(e):
         return unparse(e[1]) + "[" + unparse(e[2]) + "]"
     if k == "range":
         return (unparse(e[1]) if e[1] else "") + ".." + (unparse(e[2]) if e[2] else "")
+    if k == "rangeincl":
+        return (unparse(e[1]) if e[1] else "") + "..=" + (unparse(e[2]) if e[2] else "")
+    if k == "flit":
+        return e[1]
     if k == "un":
         return e[1] + unparse(e[2])
     if k == "bin":
@@ -898,6 +973,8 @@ TY_MARK = re.compile("«T(\\d+):(\\d)»")
 KIND_MARK = re.compile("«K(\\d+)»")
 LIT_MARK = re.compile("«L(\\d+):(\\d+)»")
 ASC_MARK = re.compile("«A(\\d+)»")
+COLL_MARK = re.compile("«C(\\d+)»")
+COLL_ELEMS = {}     # id of the type variable of a deferred `.collect()` -> element type of the collected iterator
 
 
 def asc_mark(t):
@@ -1000,6 +1077,22 @@ def resolve_types(text):
         t = prune(TVARS[int(m.group(1))])
         return f"({m.group(2)} : UInt64)" if t == U64 else m.group(2)
     text = LIT_MARK.sub(lsub, text)
+
+    def csub(m):
+        # a `.collect()` whose container is fixed by a later use (Rust's type inference): Vec = the list itself,
+        # BTreeSet = the items inserted in order
+        t = prune(TVARS[int(m.group(1))])
+        et = prune(COLL_ELEMS[int(m.group(1))])
+        if isinstance(t, TVar):
+            raise TErr("the container built by a `.collect()` could not be inferred")
+        if t[0] == "list" and show_ty(prune(t[1])) == show_ty(et):
+            return ""
+        if t[0] == "set" and et == NAT:
+            return "Ops.toSet "
+        if t == PSET and et == TUP(NAT, NAT):
+            return "Ops.toPSet "
+        raise TErr(f"a `.collect()` of {show_ty(et)} items into {show_ty(t)} is outside the typed model")
+    text = COLL_MARK.sub(csub, text)
     return ASC_MARK.sub(lambda m: " : UInt64" if prune(TVARS[int(m.group(1))]) == U64 else "", text)
 
 
@@ -1176,6 +1269,24 @@ TARGETS3 = [
     ("AdjacencyMap", "FilterVertices", "filter_vertices", "filterVertices", {}),
 ]
 
+# the fourth generated file (Model/AlgoGen4.lean): the parallel functions under the reading of DESIGN.md 4.2
+# (`available_parallelism()` = the parameter `ap`; a spawned closure runs to completion at its spawn point)
+PAR = {"par": True}
+TARGETS4 = [
+    ("AdjacencyList", "Complete", "complete", "complete", PAR),
+    ("AdjacencyList", "Complement", "complement", "complement", PAR),
+    ("AdjacencyList", "DegreeSequence", "degree_sequence", "degreeSequence", PAR),
+    ("AdjacencyList", "IsSemicomplete", "is_semicomplete", "isSemicomplete", PAR),
+    ("AdjacencyList", "@free", "merge_two_sorted", "mergeTwoSorted", PAR),
+    ("AdjacencyList", "Union", "union", "union", PAR),
+    ("AdjacencyMap", "RandomTournament", "random_tournament", "randomTournament", PAR),
+    ("AdjacencyMap", "ErdosRenyi", "erdos_renyi", "erdosRenyi", PAR),
+    ("AdjacencyMap", "@free", "merge_two_sorted", "mergeTwoSorted", PAR),
+    ("AdjacencyMap", "@free", "union_sets_unsafe", "unionSets", PAR),
+    ("AdjacencyMap", "@free", "find_partition", "findPartition", PAR),
+    ("AdjacencyMap", "Union", "union", "union", PAR),
+]
+
 # the second generated file (Model/AlgoGen2.lean)
 TARGETS2 = [
     ("Tarjan", None, "new", "new", {}),
@@ -1223,12 +1334,12 @@ NOT_COVERED = {
 # set 3: the candidates of the coordinator's list that stay hand-written
 NOT_COVERED3 = {
     ("AdjacencyMap", "RandomTournament", "random_tournament"):
-        "threads (`thread::scope`, one `Mutex` per row): hand-written `Rand.tournamentAM` + the transition system `TState`",
+        "threads: in set 4 (`Model/AlgoGen4.lean`, reading of DESIGN.md 4.2)",
     ("AdjacencyMap", "ErdosRenyi", "erdos_renyi"):
-        "threads (one PRNG per worker) and the `complement` path for `p > 0.5`: hand-written `Rand.erAM`",
-    ("AdjacencyList", "Complement", "complement"): "threads (`Par.ranges`): hand-written `Ops.complementAL`",
-    ("AdjacencyList", "Union", "union"): "threads (`step_by(chunk)` workers writing disjoint slots): hand-written `Ops.unionAL`",
-    ("AdjacencyMap", "Union", "union"): "threads (`find_partition` + per-thread merge): hand-written `Ops.unionAM`",
+        "threads: in set 4 (`Model/AlgoGen4.lean`, reading of DESIGN.md 4.2)",
+    ("AdjacencyList", "Complement", "complement"): "threads: in set 4 (`Model/AlgoGen4.lean`, reading of DESIGN.md 4.2)",
+    ("AdjacencyList", "Union", "union"): "threads: in set 4 (`Model/AlgoGen4.lean`, reading of DESIGN.md 4.2)",
+    ("AdjacencyMap", "Union", "union"): "threads: in set 4 (`Model/AlgoGen4.lean`, reading of DESIGN.md 4.2)",
 }
 
 # fuel of a loop fixed by an expression over the variables in scope (otherwise the enclosing
@@ -1242,12 +1353,25 @@ FUEL_HINTS = {
     ("BellmanFordMoore", "distances", "while0"): "arcs_len",
     ("Tarjan", "connect", "while0"): "self.stack.len()",
     ("Johnson75", "unblock", "while0"): "self.b.len() + 1",
+    # set 4: every round of these loops increases a cursor that the condition bounds
+    ("AdjacencyList", "complement", "while0"): "full_len",
+    ("AdjacencyList", "complement", "while1"): "full_len",
+    ("AdjacencyList", "merge_two_sorted", "while0"): "lhs_len + rhs_len",
+    ("AdjacencyList", "merge_two_sorted", "while1"): "lhs_len",
+    ("AdjacencyList", "merge_two_sorted", "while2"): "rhs_len",
+    ("AdjacencyMap", "merge_two_sorted", "while0"): "lhs_len + rhs_len",
+    ("AdjacencyMap", "merge_two_sorted", "while1"): "lhs_len",
+    ("AdjacencyMap", "merge_two_sorted", "while2"): "rhs_len",
+    ("AdjacencyMap", "find_partition", "while0"): "lhs_len",        # `hi - lo <= lhs_len`, halved every round
+    ("AdjacencyMap", "union", "while0"): "order",                   # every round moves a cursor; both are bounded by n1 + n2
 }
 
 LEAN_KEYWORDS = {"at", "from", "end", "open", "then", "fun", "have", "show", "by", "do", "in", "let", "if", "else",
                  "match", "with", "where", "def", "theorem", "instance", "structure", "class", "namespace", "section",
                  "import", "export", "return", "for", "mut", "try", "catch", "finally", "throw", "pure", "some",
-                 "none", "true", "false", "Type", "Prop", "Sort", "st", "it", "g", "inf", "fuel"}
+                 "none", "true", "false", "Type", "Prop", "Sort", "st", "it", "g", "inf", "fuel",
+                 "local", "partial", "private", "protected", "scoped", "macro", "syntax", "notation", "mutual",
+                 "universe", "variable", "example", "abbrev", "noncomputable", "deriving", "ap", "recf"}
 
 
 def sanitize(name):
@@ -1309,7 +1433,7 @@ class LoopCtx:
 
 
 MUTATING = {"add_arc", "add_arc_weighted", "get_unchecked_mut", "push", "push_back", "pop", "pop_front", "reverse", "next", "by_ref", "clear", "get_mut", "insert", "remove",
-            "pop_first", "or_default"}
+            "pop_first", "or_default", "extend", "sort_unstable_by_key", "sort_by_key", "store"}
 
 
 class Ctx:
@@ -1333,6 +1457,7 @@ class Ctx:
         self.mutrefs = []       # rust names of the `&mut T` parameters (returned after `self`)
         self.branch_states = []         # (first binding id of the branch, ids of the variables it returns | None)
         self.pipe_n = 0
+        self.par = False                # set 4: the concurrency constructs are read as in DESIGN.md 4.2
         self.collect_target = None      # Rust type text of the container a `.collect()` without turbofish builds
 
     # ---- names / bindings ----
@@ -1478,6 +1603,9 @@ def eval_ptr(ctx, env, e):
             i = compile_expr(ctx, env, b.idx, NAT)     # the offset expression only mentions immutable variables
             return ("elem", b.place, i, b.site)
         return None
+    if e[0] == "cast" and ctx.par and (e[2] == "usize" or e[2].startswith("*")):
+        # `p as usize`, `x as *const T`: the same pointer (docs/AlgoGen.md, Set 4: the round trip keeps address and provenance)
+        return eval_ptr(ctx, env, e[1])
     if e[0] == "mcall" and e[2] in ("as_mut_ptr", "as_ptr") and not e[4]:
         pl = place_of(e[1])
         if pl is None:
@@ -1499,7 +1627,7 @@ def eval_ptr(ctx, env, e):
 def elem_place(ctx, env, recv):
     """`*p.add(i)`, `*q` (q a named element pointer) or `q` itself when it is a `&mut` to an element obtained
     from `p.add(i).as_mut()`: (vector place, index Val, site) - else None."""
-    r = strip_wrappers(recv)
+    r = strip_lock(recv) if ctx.par else strip_wrappers(recv)
     if r[0] == "mcall" and r[2] in ("get_unchecked_mut", "get_unchecked") and len(r[4]) == 1:
         pl = place_of(r[1])
         if pl is None or pl[0] not in env or env[pl[0]].kind != "val":
@@ -1731,6 +1859,10 @@ def compile_expr(ctx, env, e, expect=None):
         return compile_struct(ctx, env, e)
     if k == "closure":
         raise TErr("a closure outside an argument position is outside the supported subset")
+    if k == "cast" and ctx.par and e[2] == "u64":
+        v = compile_expr(ctx, env, e[1], NAT)
+        unify(v.ty, NAT, "operand of `as u64`")
+        return Val(f"UInt64.ofNat {v.p()}", U64)            # usize -> u64: lossless on a 64-bit target
     if k == "cast":
         raise TErr("`as` casts are outside the supported subset")
     if k == "try":
@@ -1752,12 +1884,41 @@ def compile_expr(ctx, env, e, expect=None):
             ctx.em, ctx.loops = sub, []
             v, div = compile_stmts(ctx, dict(env), br, want_value=True)
             ctx.em, ctx.loops = saved, saved_loops
+            if (sub.lines or div or v is None) and ctx.par:
+                return compile_if_value(ctx, env, e)
             if sub.lines or div or v is None:
                 raise TErr("`if` in expression position: a branch that is not a pure expression is outside the supported subset")
             vals.append(v)
         unify(vals[0].ty, vals[1].ty, "branches of `if`")
         return Val(f"if {c} then {vals[0].code} else {vals[1].code}", vals[0].ty)
     raise TErr(f"`{k}` in expression position is outside the supported subset")
+
+
+def compile_if_value(ctx, env, e):
+    """`if c { ..; a } else { ..; b }` as a value whose branches have effects (reads that can fault) but update no
+    variable declared outside"""
+    if state_binds(ctx, env, [e[2], e[3]]):
+        raise TErr("`if` in expression position whose branches update outer variables is outside the supported subset")
+    c = compile_cond(ctx, env, e[1])
+    base = ctx.em.indent
+    tmp = ctx.fresh_tmp()
+    ctx.em.emit(f"let {tmp} ← (if {c} then do")
+    tys = []
+    for k, br in enumerate((e[2], e[3])):
+        if k == 1:
+            ctx.em.emit("  else do")
+        ctx.em.indent = base + 4
+        ctx.branch_states.append((ctx.bid, set()))
+        v, div = compile_stmts(ctx, dict(env), br, want_value=True)
+        ctx.branch_states.pop()
+        if div or v is None:
+            raise TErr("`if` in expression position: a branch without value")
+        ctx.em.emit(f"pure {v.p()}")
+        ctx.em.indent = base
+        tys.append(v.ty)
+    ctx.em.append_to_last(")")
+    unify(tys[0], tys[1], "branches of `if`")
+    return Val(tmp, tys[0], atomic=True, stable=True)
 
 
 def compile_entry(ctx, env, e):
@@ -1872,6 +2033,12 @@ def compile_bin(ctx, env, e, expect):
         if op == "!=":
             return Val(f"{a.p()} != {b.p()}", BOOL)
         return Val(f"decide ({a.code} {op.replace('<=', '≤').replace('>=', '≥')} {b.code})", BOOL)
+    if op == ">>" and ctx.par and strip_wrappers(e[3])[0] == "lit" and 0 < strip_wrappers(e[3])[1] < 64:
+        a = compile_expr(ctx, env, e[2], expect)
+        ta = prune(a.ty)
+        if ta == NAT or (isinstance(ta, TVar) and ta.numeric and expect is None):
+            unify(a.ty, NAT, "operand of >>")
+            return Val(f"{a.p()} / {2 ** strip_wrappers(e[3])[1]}", NAT)       # `x >> k` on usize
     if op in ("^", "&", "|", "<<", ">>"):
         a = compile_expr(ctx, env, e[2], U64)
         b = compile_expr(ctx, env, e[3], U64)
@@ -1879,6 +2046,10 @@ def compile_bin(ctx, env, e, expect):
         unify(b.ty, U64, f"operand of {op}")
         lop = {"^": "^^^", "&": "&&&", "|": "|||", "<<": "<<<", ">>": ">>>"}[op]
         return Val(f"{a.p()} {lop} {b.p()}", U64)
+    if op == "-" and ctx.par and strip_wrappers(e[2]) == ("flit", "1.0"):
+        pv = compile_expr(ctx, env, e[3], F64)
+        unify(pv.ty, F64, "operand of `1.0 - p`")
+        return Val(f"Rand.F64.oneMinus {pv.p()}", F64)      # the hand-written `1.0 - p` (exact on [0.5, 1], Sterbenz)
     if op == "-" and strip_wrappers(e[3])[0] == "flit":
         # `f64::from_bits(b) - 1.0`: the double with sign 0 / exponent 1023 / mantissa m minus one is
         # exactly m / 2^52 - represented by its mantissa bits (docs/AlgoGen.md, trusted)
@@ -1900,8 +2071,20 @@ def compile_bin(ctx, env, e, expect):
             tmp = ctx.fresh_tmp()
             ctx.em.emit(f"let {tmp} ← modP {a.p()} {b.p()}")      # panics for a zero divisor
             return Val(tmp, NAT, atomic=True, stable=True)
+        if op == "/" and ctx.par and prune(t) == NAT and getattr(b, "lit", None) not in (None, 0):
+            return Val(f"{a.p()} / {b.p()}", NAT)         # a non-zero literal divisor
+        if op == "/" and ctx.par and prune(t) == NAT:
+            tmp = ctx.fresh_tmp()
+            ctx.em.emit(f"let {tmp} ← divP {a.p()} {b.p()}")       # panics for a zero divisor
+            return Val(tmp, NAT, atomic=True, stable=True)
         if op in ("/", "%"):
             raise TErr(f"`{op}` (division by zero panics) is outside the supported subset")
+        if op == "-" and prune(t) != INT and ctx.par:
+            # overflow checks of the dev / test profile: `a - b` with `a < b` panics (docs/AlgoGen.md, Set 4)
+            unify(t, NAT, "operands of `-`")
+            tmp = ctx.fresh_tmp()
+            ctx.em.emit(f"let {tmp} ← subP {a.p()} {b.p()}")
+            return Val(tmp, NAT, atomic=True, stable=True)
         if op == "-" and prune(t) != INT:
             raise TErr("`-` on usize (underflow panics / wraps) is outside the supported subset")
         return Val(f"{a.p()} {op} {b.p()}", t)
@@ -1918,6 +2101,10 @@ def compile_cond(ctx, env, e):
             if s[1] != "<" or prune(b.ty) != F64:
                 raise TErr(f"`{unparse(s)}`: only `next_f64() < p` is supported on doubles")
             return f"f64ltM {a.p()} {b.p()} = true"
+        if ctx.par and prune(a.ty) == F64:
+            if s[1] == ">" and strip_wrappers(s[3]) == ("flit", "0.5"):
+                return f"Rand.F64.gtHalf {a.p()} = true"        # the hand-written exact `p > 0.5`
+            raise TErr(f"`{unparse(s)}`: only `p > 0.5` is supported on an `f64` parameter")
         b = compile_expr(ctx, env, s[3], a.ty)
         unify(a.ty, b.ty, f"operands of {s[1]}")
         op = {"==": "=", "!=": "≠", "<=": "≤", ">=": "≥"}.get(s[1], s[1])
@@ -2008,8 +2195,138 @@ def new_container(what):
     return Val(f"([] : List {lean_ty(what, True)})", LIST(what), atomic=True)
 
 
+def contains_kind(node, kinds):
+    if isinstance(node, list):
+        return any(contains_kind(x, kinds) for x in node)
+    if isinstance(node, tuple) and node:
+        if node[0] in kinds:
+            return True
+        return any(contains_kind(x, kinds) for x in node[1:] if isinstance(x, (tuple, list)))
+    return False
+
+
+def compile_spawn(ctx, env, lam, what):
+    """`spawn(move || body)` / `s.spawn(move || body)` (DESIGN.md 4.2): the closure is executed to completion at
+    its spawn point; the `JoinHandle` is the value the closure returns."""
+    if lam[0] != "closure" or lam[1]:
+        raise TErr(f"`{what}` takes a closure without parameters")
+    if contains_kind(lam[2], ("return", "try")):
+        raise TErr(f"`{what}`: `return` / `?` inside a spawned closure is outside the supported subset")
+    inner = dict(env)
+    saved_loops = ctx.loops
+    ctx.loops = []          # a closure cannot `break` / `continue` a loop around it
+    try:
+        if lam[2][0] in ("block", "unsafeblock"):
+            v, div = compile_stmts(ctx, inner, lam[2][1], want_value=True)
+        else:
+            v, div = compile_expr(ctx, inner, lam[2]), False
+    finally:
+        ctx.loops = saved_loops
+    if div:
+        raise TErr(f"`{what}`: a spawned closure that always panics is outside the supported subset")
+    return v if v is not None else Val("()", UNIT, atomic=True)
+
+
+def compile_scope(ctx, env, lam):
+    """`scope(|s| body)`: the body is run in place (`s.spawn` as above); leaving the scope joins all workers,
+    which is a no-op in this reading."""
+    if lam[0] != "closure" or len(lam[1]) != 1 or strip_pref(lam[1][0])[0] != "pvar":
+        raise TErr("`scope` takes a closure `|s| ..`")
+    if contains_kind(lam[2], ("return", "try")):
+        raise TErr("`scope`: `return` / `?` inside the scope closure is outside the supported subset")
+    inner = dict(env)
+    ctx.new_bind(inner, Bind("scope", strip_pref(lam[1][0])[1]))
+    saved_loops = ctx.loops
+    ctx.loops = []
+    try:
+        if lam[2][0] in ("block", "unsafeblock"):
+            v, div = compile_stmts(ctx, inner, lam[2][1], want_value=True)
+        else:
+            v, div = compile_expr(ctx, inner, lam[2]), False
+    finally:
+        ctx.loops = saved_loops
+    if div:
+        raise TErr("`scope`: a body that always panics is outside the supported subset")
+    return v if v is not None else Val("()", UNIT, atomic=True)
+
+
+def is_ap_expr(e):
+    """`available_parallelism().map_or(1, NonZero::get)`"""
+    e = strip_wrappers(e)
+    if e[0] != "mcall" or e[2] != "map_or" or len(e[4]) != 2:
+        return False
+    r = strip_wrappers(e[1])
+    ok = r[0] == "call" and not r[2] and (r[1] == ("var", "available_parallelism")
+                                          or (r[1][0] == "path" and r[1][1][-1] == "available_parallelism"))
+    a0, a1 = strip_wrappers(e[4][0]), strip_wrappers(e[4][1])
+    return ok and a0 == ("lit", 1) and a1[0] == "path" and a1[1][-2:] == ["NonZero", "get"]
+
+
+def strip_lock(e):
+    """`m.lock().unwrap_unchecked()` / `m.lock().unwrap()` -> m (direct access, DESIGN.md 4.2)"""
+    e = strip_wrappers(e)
+    while e[0] == "mcall" and e[2] in ("unwrap_unchecked", "unwrap") and not e[4]:
+        r = strip_wrappers(e[1])
+        if r[0] == "mcall" and r[2] == "lock" and not r[4]:
+            e = strip_wrappers(r[1])
+        else:
+            break
+    return e
+
+
+def is_join(e):
+    """`h.join().unwrap_unchecked()` / `h.join().unwrap()` -> h"""
+    e = strip_wrappers(e)
+    if e[0] == "mcall" and e[2] in ("unwrap_unchecked", "unwrap") and not e[4]:
+        r = strip_wrappers(e[1])
+        if r[0] == "mcall" and r[2] == "join" and not r[4]:
+            return r[1]
+    return None
+
+
 def compile_call(ctx, env, e, expect):
     f, args = e[1], e[2]
+    if ctx.par:
+        segs = [f[1]] if f[0] == "var" else (f[1] if f[0] == "path" else None)
+        if segs in (["spawn"], ["thread", "spawn"]) and len(args) == 1:
+            return compile_spawn(ctx, env, args[0], "spawn")
+        if segs in (["scope"], ["thread", "scope"]) and len(args) == 1:
+            return compile_scope(ctx, env, args[0])
+        if segs in (["Arc", "new"], ["Mutex", "new"], ["AtomicBool", "new"], ["ManuallyDrop", "new"]) and len(args) == 1:
+            # sharing / direct access / a plain Boolean cell: the value itself
+            return compile_expr(ctx, env, args[0], expect)
+        if segs == ["Arc", "clone"] and len(args) == 1:
+            return compile_expr(ctx, env, args[0], expect)
+        if segs is not None and len(segs) == 1 and (ctx.sname, segs[0]) in ctx.fntab \
+                and ctx.fntab[(ctx.sname, segs[0])]["self_mode"] is None and segs[0] not in env:
+            return compile_fn_call(ctx, env, ctx.sname, segs[0], None, args)      # a free function of the same file
+        if segs in (["read"], ["ptr", "read"]) and len(args) == 1:
+            # `ptr::read(p.add(i))`: the bounds-checked copy of element `i` (out of range: `ub`).  That the entry is moved
+            # out at most once / not used afterwards is NOT tracked (docs/AlgoGen.md, Set 4)
+            pe = eval_ptr(ctx, env, args[0])
+            if pe is None or pe[0] != "elem":
+                raise TErr(f"`{unparse(e)}`: the source must be `p.add(i)` for a vector's buffer pointer `p`")
+            _, place, i, site = pe
+            pv = place_val(ctx, env, place)
+            t = prune(pv.ty)
+            tmp = ctx.fresh_tmp()
+            ctx.em.emit(f"let {tmp} ← rd {site} {pv.p()} {i.p()}")
+            return Val(tmp, t[1], atomic=True, stable=True)
+        if segs in (["write"], ["ptr", "write"]) and len(args) == 2:
+            # `ptr::write(p.add(i), x)`: element `i` of the vector is overwritten (out of range: `ub`)
+            pe = eval_ptr(ctx, env, args[0])
+            if pe is None or pe[0] != "elem":
+                raise TErr(f"`{unparse(e)}`: the destination must be `p.add(i)` for a vector's buffer pointer `p`")
+            _, place, i, site = pe
+            pv = place_val(ctx, env, place)
+            t = prune(pv.ty)
+            v = compile_expr(ctx, env, args[1], t[1])
+            unify(v.ty, t[1], "value written by ptr::write")
+            tmp = ctx.fresh_tmp()
+            pv = place_val(ctx, env, place)
+            ctx.em.emit(f"let {tmp} ← wr {site} {pv.p()} {i.p()} {v.p()}")
+            place_set(ctx, env, place, tmp)
+            return Val("()", UNIT, atomic=True)
     if f[0] == "var":
         name = f[1]
         if name == "Some":
@@ -2098,6 +2415,9 @@ def compile_fn_call(ctx, env, sname, rfn, recv_place, args):
         head = "recf"
     else:
         head = f"{sname}.{sig['lean']}"
+        if sig.get("ap"):
+            ctx.use_global("ap")
+            pre.append("ap")
         if sig["g"]:
             if STRUCTS[sname]["graph"] != ctx.sinfo["graph"]:
                 raise TErr(f"call of `{sname}::{rfn}` with a different digraph kind")
@@ -2165,13 +2485,29 @@ def closures_in(e, out):
     return out
 
 
+EFFECT_METHODS = {"get_unchecked", "get_unchecked_mut", "unwrap", "expect", "unwrap_unchecked", "lock", "div_ceil",
+                  "step_by", "chunks"}
+
+
+def has_effect_syntax(node):
+    """set 4: an unchecked / checked access, a pointer read, an arithmetic operation that can panic"""
+    if isinstance(node, list):
+        return any(has_effect_syntax(x) for x in node)
+    if not isinstance(node, tuple) or not node:
+        return False
+    if node[0] == "index" or (node[0] == "un" and node[1] == "*") or (node[0] == "bin" and node[1] in ("-", "/", "%")) \
+            or (node[0] == "mcall" and node[2] in EFFECT_METHODS):
+        return True
+    return any(has_effect_syntax(x) for x in node[1:] if isinstance(x, (tuple, list)))
+
+
 def effectful(ctx, e):
     """does an iterator expression contain a closure that updates a variable declared outside of it
     (e.g. draws from a PRNG)?  Such a pipeline is translated as the loop its consumer runs."""
     for lam in closures_in(e, []):
         out = set()
         mutated_vars(ctx, lam, [set()], out)
-        if out:
+        if out or (ctx.par and has_effect_syntax(lam[2])):
             return True
     return False
 
@@ -2322,6 +2658,18 @@ def compile_mcall(ctx, env, e, expect):
         x = compile_expr(ctx, env, strip_wrappers(recv)[2][0], U64)
         unify(x.ty, U64, "argument of usize::try_from")
         return Val(f"{x.p()}.toNat", NAT, atomic=True)
+    if ctx.par:
+        if is_ap_expr(e):
+            ctx.use_global("ap")
+            return Val("ap", NAT, atomic=True, stable=True)
+        h = is_join(e)
+        if h is not None:
+            return compile_expr(ctx, env, h, expect)
+        if strip_lock(e) is not strip_wrappers(e):
+            return compile_expr(ctx, env, strip_lock(e), expect)
+        if name == "spawn" and len(args) == 1 and strip_wrappers(recv)[0] == "var" \
+                and strip_wrappers(recv)[1] in env and env[strip_wrappers(recv)[1]].kind == "scope":
+            return compile_spawn(ctx, env, args[0], "s.spawn")
     if name in ("as_mut_ptr", "as_ptr", "add"):
         raise TErr(f"`{unparse(e)}`: a raw pointer is supported only as `let p = v.as_mut_ptr();`, "
                    f"`let q = p.add(i);`, `*p.add(i)`, `*q`")
@@ -2334,6 +2682,10 @@ def compile_mcall(ctx, env, e, expect):
             return compile_fn_call(ctx, env, rt[1], name, pl, args)
     if name == "collect" and not args and ctx.sinfo.get("extern") and effectful(ctx, recv):
         return compile_collect_loop(ctx, env, e, fish, expect)
+    if ctx.par and name in ADAPTORS and len(args) == 1 and args[0][0] == "closure" and effectful(ctx, e):
+        # an adaptor with effects whose items are consumed later (a returned iterator, a `for` over it): the items
+        # in order, computed as `collect::<Vec<_>>()` would
+        return compile_collect_loop(ctx, env, ("mcall", e, "collect", "Vec<_>", []), "Vec<_>", expect)
     outer_ct = ctx.collect_target
     if name == "collect":
         m = re.match(r"(?:Vec|BTreeSet)<(.*)>\Z", fish or outer_ct or "")
@@ -2362,6 +2714,17 @@ def compile_mcall(ctx, env, e, expect):
             return Val(f"{r.p()}.hasArc {a.p()} {b.p()}", BOOL)
         if name == "clone" and not args:
             return r
+        if ctx.par and (t[1], name) in ctx.fntab and ctx.fntab[(t[1], name)]["self_mode"] == "ref" \
+                and not ctx.fntab[(t[1], name)]["params"] and not args:
+            sig = ctx.fntab[(t[1], name)]
+            if sig["g"] or sig["inf"] or sig["fuel"] or sig.get("ap"):
+                raise TErr(f"`{unparse(e)}`: call of a generated method with extra parameters on a value")
+            tmp = ctx.fresh_tmp()
+            ctx.em.emit(f"let {tmp} ← call ({t[1]}.{sig['lean']} {r.p()})")
+            return Val(tmp, sig["value_ty"], atomic=True, stable=True)
+        if name == "size" and not args and ctx.par and t[1] in ("AdjacencyList", "AdjacencyMap"):
+            # the sum of the row lengths: the hand-written `size`
+            return Val(f"{r.p()}.size", NAT, atomic=True)
         if t[1] == "AdjacencyMap" and name == "vertices" and not args:
             # `self.arcs.keys().copied()`: the hand-written `AdjMap.vertices`
             return Val(f"{r.p()}.vertices", LIST(NAT), atomic=True)
@@ -2422,7 +2785,42 @@ def compile_mcall(ctx, env, e, expect):
         if name == "collect" and not args:
             if ctx.sinfo.get("extern") and (fish is not None or ctx.collect_target is not None or expect is not None):
                 return compile_collect(ctx, e, r, t, fish, expect)
+            if ctx.par:
+                tv = TVar()
+                TVARS[tv.id] = tv
+                COLL_ELEMS[tv.id] = t[1]
+                return Val(f"«C{tv.id}»{r.p()}", tv)
             return r
+        if name == "remove" and len(args) == 1 and ctx.par and strip_wrappers(args[0]) == ("lit", 0):
+            # `v.remove(0)`: the first element (panic when empty), the rest stays
+            pl = place_of(recv)
+            if pl is None or pl[0] not in env or env[pl[0]].kind != "val":
+                raise TErr(f"`{unparse(e)}`: receiver is not a variable or field path")
+            tmp = ctx.fresh_tmp()
+            ctx.em.emit(f"let {tmp} ← idx {r.p()} 0")
+            pv = place_val(ctx, env, pl)
+            place_set(ctx, env, pl, f"{pv.p()}.drop 1")
+            return Val(tmp, t[1], atomic=True, stable=True)
+        if name == "step_by" and len(args) == 1 and ctx.par:
+            k = compile_expr(ctx, env, args[0], NAT)
+            unify(k.ty, NAT, "argument of .step_by")
+            tmp = ctx.fresh_tmp()
+            ctx.em.emit(f"let {tmp} ← stepByP {r.p()} {k.p()}")       # panics for step 0
+            return Val(tmp, r.ty, atomic=True, stable=True)
+        if name == "chunks" and len(args) == 1 and ctx.par:
+            k = compile_expr(ctx, env, args[0], NAT)
+            unify(k.ty, NAT, "argument of .chunks")
+            tmp = ctx.fresh_tmp()
+            ctx.em.emit(f"let {tmp} ← chunksP {r.p()} {k.p()}")       # panics for chunk size 0
+            return Val(tmp, LIST(r.ty), atomic=True, stable=True)
+        if name == "iter_mut" and not args and ctx.par:
+            raise TErr(f"`{unparse(e)}`: `iter_mut()` is supported only as `for (a, b) in A.zip(V.iter_mut())`")
+        if name == "get_unchecked" and len(args) == 1 and ctx.par:
+            i = compile_expr(ctx, env, args[0], NAT)
+            unify(i.ty, NAT, "argument of .get_unchecked")
+            tmp = ctx.fresh_tmp()
+            ctx.em.emit(f"let {tmp} ← rd {ctx.site(unparse(e))} {r.p()} {i.p()}")
+            return Val(tmp, t[1], atomic=True, stable=True)
         if name == "get" and len(args) == 1:
             i = compile_expr(ctx, env, args[0], NAT)
             unify(i.ty, NAT, "argument of .get")
@@ -2506,6 +2904,8 @@ def compile_mcall(ctx, env, e, expect):
             return Val(f"List.filter (fun {y} => !({o.p()}.contains {y})) {r.p()}", LIST(et))
         if name == "clone" and not args:
             return r
+        if name == "len" and not args and ctx.par:
+            return Val(f"{r.p()}.length", NAT, atomic=True)
     if not isinstance(t, TVar) and t[0] == "set":
         if name == "contains" and len(args) == 1:
             k = compile_expr(ctx, env, args[0], NAT)
@@ -2529,6 +2929,20 @@ def compile_mcall(ctx, env, e, expect):
             b = compile_expr(ctx, env, args[0], U64)
             unify(b.ty, U64, "rotation amount")
             return Val(f"Rand.rotl {r.p()} {b.p()}", U64)
+    if ctx.par and (t == NAT or (isinstance(t, TVar) and t.numeric)) and name == "saturating_sub" and len(args) == 1:
+        unify(r.ty, NAT, "receiver of .saturating_sub")
+        b = compile_expr(ctx, env, args[0], NAT)
+        unify(b.ty, NAT, "argument of .saturating_sub")
+        return Val(f"{r.p()} - {b.p()}", NAT)                      # truncated subtraction on `Nat`
+    if ctx.par and t == BOOL and name == "load" and len(args) == 1:
+        return r                                                    # a `Relaxed` load of the plain Boolean cell
+    if ctx.par and (t == NAT or (isinstance(t, TVar) and t.numeric)) and name == "div_ceil" and len(args) == 1:
+        unify(r.ty, NAT, "receiver of .div_ceil")
+        b = compile_expr(ctx, env, args[0], NAT)
+        unify(b.ty, NAT, "argument of .div_ceil")
+        tmp = ctx.fresh_tmp()
+        ctx.em.emit(f"let {tmp} ← divCeilP {r.p()} {b.p()}")       # panics for a zero divisor
+        return Val(tmp, NAT, atomic=True, stable=True)
     if t in (NAT, INT) or (isinstance(t, TVar) and t.numeric):
         if name in ("min", "max") and len(args) == 1 and (name == "min" or ctx.sinfo.get("extern")):
             b = compile_expr(ctx, env, args[0], r.ty)
@@ -2676,6 +3090,16 @@ def collect_ptr_aliases(node, out):
         return
     if node[0] == "let":
         pat, init = strip_pref(node[1]), strip_wrappers(node[3])
+        while init[0] == "cast" and (init[2] == "usize" or init[2].startswith("*")):
+            init = strip_wrappers(init[1])
+            if pat[0] == "pvar" and init[0] == "var" and init[1] in out:
+                set_alias(out, pat[1], out[init[1]])
+        if pat[0] == "pvar" and init[0] == "call" and init[1] == ("path", ["Arc", "clone"]) and len(init[2]) == 1:
+            a0 = strip_wrappers(init[2][0])
+            if a0[0] == "un" and a0[1] == "&":
+                a0 = strip_wrappers(a0[2])
+            if a0[0] == "var" and a0[1] != pat[1]:
+                set_alias(out, pat[1], out.get(a0[1], a0[1]))
         if pat[0] == "pvar" and init[0] == "mcall":
             if init[2] in ("as_mut_ptr", "as_ptr"):
                 pl = place_of(init[1])
@@ -2730,6 +3154,8 @@ def mutated_vars(ctx, node, scopes, out):
             return root_of(e[2])
         if e[0] == "mcall" and e[2] in ("add", "get_unchecked_mut", "get_unchecked", "entry", "or_default"):
             return root_of(e[1])
+        if ctx.par and e[0] == "mcall" and e[2] in ("lock", "unwrap_unchecked", "unwrap"):
+            return root_of(e[1])
         return None
 
     if isinstance(node, list):          # a block: one scope
@@ -2748,6 +3174,8 @@ def mutated_vars(ctx, node, scopes, out):
         init = strip_wrappers(node[3])
         if init[0] == "try":
             init = strip_wrappers(init[1])
+        if ctx.par and init[0] == "call" and init[1] == ("path", ["Arc", "clone"]):
+            return      # `let y = Arc::clone(&x)`: no new variable (the same shared value)
         for n in pat_vars(node[1], []):
             scopes[-1].add(n)
         return
@@ -2789,6 +3217,10 @@ def mutated_vars(ctx, node, scopes, out):
                     hit(r)
             mutated_vars(ctx, a, scopes, out)
         return
+    if k == "call" and node[1] in (("var", "write"), ("path", ["ptr", "write"])) and len(node[2]) == 2:
+        r = root_of(node[2][0])
+        if r is not None:
+            hit(r)
     if k == "for":
         it = strip_wrappers(node[2])
         if it == ("var", "self") or (it[0] == "mcall" and it[2] == "by_ref" and strip_wrappers(it[1]) == ("var", "self")):
@@ -3015,10 +3447,28 @@ def some_pattern(pat):
     return None
 
 
+def interior_mut(node):
+    if isinstance(node, list):
+        return any(interior_mut(x) for x in node)
+    if isinstance(node, tuple) and node:
+        if node[0] == "call" and node[1][0] == "path" and node[1][1] in (["AtomicBool", "new"], ["Mutex", "new"]):
+            return True
+        return any(interior_mut(x) for x in node[1:] if isinstance(x, (tuple, list)))
+    return False
+
+
 def compile_let(ctx, env, st):
     _, pat, ty, init, els = st
     if ty is not None:
-        raise TErr("a `let` with a type annotation is outside the supported subset")
+        if not ctx.par or els is not None or strip_pref(pat)[0] != "pvar":
+            raise TErr("a `let` with a type annotation is outside the supported subset")
+        at = rust_ty(ty, ctx.sname, ctx.aliases, {})
+        v = compile_expr(ctx, env, init, at)
+        unify(v.ty, at, f"type annotation of `let {unparse_pat(pat)}`")
+        if not strip_pref(pat)[2] and interior_mut(init):
+            pat = ("pvar", strip_pref(pat)[1], True)
+        bind_pattern(ctx, env, pat, v, True)
+        return False
     sp = strip_pref(pat)
     sinit = strip_wrappers(init)
     # let Some(x) = e else { diverge };
@@ -3053,7 +3503,18 @@ def compile_let(ctx, env, st):
         after(env)
         return False
     # raw pointers
-    if sp[0] == "pvar" and sinit[0] == "mcall" and sinit[2] in ("as_mut_ptr", "as_ptr", "add"):
+    if ctx.par and sp[0] == "pvar" and sinit[0] == "call" and sinit[1] == ("path", ["Arc", "clone"]) and len(sinit[2]) == 1:
+        # `let y = Arc::clone(&x);`: `y` is the SAME shared value as `x` (an update through one is seen through the other)
+        a0 = strip_wrappers(sinit[2][0])
+        if a0[0] == "un" and a0[1] == "&":
+            a0 = strip_wrappers(a0[2])
+        if a0[0] != "var" or a0[1] not in env or env[a0[1]].kind != "val":
+            raise TErr(f"`{unparse(sinit)}`: `Arc::clone` of something that is not a variable")
+        env[sp[1]] = env[a0[1]]
+        return False
+    is_ptr_cast = (ctx.par and sinit[0] == "cast" and (sinit[2] == "usize" or sinit[2].startswith("*"))
+                   and eval_ptr(ctx, env, sinit) is not None)
+    if sp[0] == "pvar" and ((sinit[0] == "mcall" and sinit[2] in ("as_mut_ptr", "as_ptr", "add")) or is_ptr_cast):
         pe = eval_ptr(ctx, env, sinit)
         check_no_alias_root(env, sp[1])
         if pe[0] == "ptr":
@@ -3071,6 +3532,8 @@ def compile_let(ctx, env, st):
     v = compile_expr(ctx, env, init)
     if v.ty == GRAPH_T and ctx.sinfo["graph"] in ("Graph", "WGraph"):
         raise TErr("binding the digraph reference to a local variable is outside the supported subset")
+    if ctx.par and sp[0] == "pvar" and not sp[2] and interior_mut(init):
+        pat = ("pvar", sp[1], True)     # an `AtomicBool` / `Mutex` is updated through a shared reference
     bind_pattern(ctx, env, pat, v, True)
     return False
 
@@ -3313,6 +3776,10 @@ def compile_assign(ctx, env, e):
     if slhs[0] == "un" and slhs[1] == "*":
         target = slhs[2]
         pe = eval_ptr(ctx, env, target)
+        if pe is None and ctx.par:
+            ep = elem_place(ctx, env, target)         # `*v.get_unchecked_mut(i) = ..` / `+= ..`
+            if ep is not None:
+                pe = ("elem",) + tuple(ep)
         if pe is not None:
             if pe[0] != "elem":
                 if not ctx.sinfo.get("ptr_deref0"):
@@ -3326,13 +3793,19 @@ def compile_assign(ctx, env, e):
                 # for primitive compound assignment)
                 rv = compile_expr(ctx, env, rhs, t[1])
                 unify(rv.ty, t[1], f"operand of {op}")
-                if op != "^=" or prune(t[1]) != U64:
+                if ctx.par and op == "+=" and isinstance(prune(t[1]), TVar) and prune(t[1]).numeric:
+                    unify(t[1], NAT, "operand of +=")
+                if ctx.par and op == "+=" and prune(t[1]) == NAT:
+                    lop = "+"
+                elif op != "^=" or prune(t[1]) != U64:
                     raise TErr(f"`{op}` through a pointer is supported for `^=` on u64 only")
+                else:
+                    lop = "^^^"
                 old = ctx.fresh_tmp()
                 pv = place_val(ctx, env, place)
                 ctx.em.emit(f"let {old} ← rd {site} {pv.p()} {i.p()}")
                 tmp = ctx.fresh_tmp()
-                ctx.em.emit(f"let {tmp} ← wr {site} {pv.p()} {i.p()} ({old} ^^^ {rv.p()})")
+                ctx.em.emit(f"let {tmp} ← wr {site} {pv.p()} {i.p()} ({old} {lop} {rv.p()})")
                 place_set(ctx, env, place, tmp)
                 return
             v = compile_expr(ctx, env, rhs, t[1])
@@ -3352,6 +3825,23 @@ def compile_assign(ctx, env, e):
             b.cur = None
             return
         raise TErr(f"assignment through `{unparse(lhs)}` is outside the supported subset")
+    if ctx.par and op == "=" and slhs[0] == "field" and re.match(r"\d+\Z", slhs[2]) and strip_wrappers(slhs[1])[0] == "var":
+        # `x.k = e` for a tuple variable `x`: the tuple with component `k` replaced
+        root = strip_wrappers(slhs[1])[1]
+        b = env.get(root)
+        if b is None or b.kind != "val":
+            raise TErr(f"`{root}` is not a variable holding a value")
+        t = prune(b.ty)
+        k = int(slhs[2])
+        if isinstance(t, TVar) or t[0] != "tup" or k >= len(t[1]):
+            raise TErr(f"`{unparse(lhs)} = ..`: not a component of a tuple variable")
+        v = compile_expr(ctx, env, rhs, t[1][k])
+        unify(v.ty, t[1][k], f"assignment to `{unparse(lhs)}`")
+        ctx.use(b)
+        n = len(t[1])
+        parts = [v.code if i == k else proj(b.lean, i, n) for i in range(n)]
+        place_set(ctx, env, (root, []), "(" + ", ".join(parts) + ")")
+        return
     pl = place_of(lhs)
     if pl is None:
         raise TErr(f"assignment target `{unparse(lhs)}` is outside the supported subset")
@@ -3425,7 +3915,7 @@ def compile_stmt_expr(ctx, env, e):
             ctx.em.emit(f"brk {tuple_code(lp.state)}")
         return True
     if k == "continue":
-        if not ctx.loops or ctx.loops[-1].kind not in ("for", "iter"):
+        if not ctx.loops or ctx.loops[-1].kind not in (("for", "iter", "while") if ctx.par else ("for", "iter")):
             raise TErr("`continue` is supported in `for` bodies only")
         lp = ctx.loops[-1]
         if not (lp.depth == 1 and lp.cont_ok and lp.cont_ok[-1]):
@@ -3433,6 +3923,60 @@ def compile_stmt_expr(ctx, env, e):
                        "directly in the loop body")
         ctx.em.emit(f"pure {tuple_code(lp.state)}")
         return True
+    if k == "call" and ctx.par:
+        compile_expr(ctx, env, e)        # `scope(..)`, `spawn(..)`, `write(..)`: the value (unit / a dropped handle) is not used
+        return False
+    if k == "mcall" and ctx.par:
+        recv, name, args = e[1], e[2], e[4]
+        if is_join(e) is not None or name == "spawn":
+            compile_expr(ctx, env, e)
+            return False
+        sr0 = strip_wrappers(recv)
+        if name == "set_len" and len(args) == 1 and strip_wrappers(args[0]) == ("lit", 0) and sr0[0] == "call" \
+                and sr0[1] == ("path", ["ManuallyDrop", "into_inner"]) and len(sr0[2]) == 1 and strip_wrappers(sr0[2][0])[0] == "var":
+            # `ManuallyDrop::into_inner(v).set_len(0);`: the buffer is freed with length 0, no entry is dropped - no value
+            # changes (whether every entry HAS been moved out before is not tracked, see `ptr::read`)
+            b = env.get(strip_wrappers(sr0[2][0])[1])
+            if b is None or b.kind != "val":
+                raise TErr(f"`{unparse(e)}`: not a variable")
+            return False
+        if name == "store" and len(args) == 2:
+            pl = place_of(recv)
+            if pl is None or pl[0] not in env or env[pl[0]].kind != "val" or prune(place_val(ctx, env, pl).ty) != BOOL:
+                raise TErr(f"`{unparse(e)}`: `.store` on something that is not an `AtomicBool` variable")
+            v = compile_expr(ctx, env, args[0], BOOL)
+            unify(v.ty, BOOL, "stored value")
+            place_set(ctx, env, pl, v.code)
+            return False
+        if name == "extend" and len(args) == 1:
+            pl = place_of(recv)
+            if pl is None:
+                raise TErr(f"`{unparse(e)}`: receiver is not a variable or field path")
+            pv = place_val(ctx, env, pl)
+            unify(pv.ty, LIST(TVar()), "receiver of .extend")
+            v = compile_expr(ctx, env, args[0], pv.ty)
+            unify(v.ty, pv.ty, "argument of .extend")
+            pv = place_val(ctx, env, pl)
+            place_set(ctx, env, pl, f"{pv.p()} ++ {v.p()}")
+            return False
+        if name in ("sort_unstable_by_key", "sort_by_key") and len(args) == 1:
+            # the key must be the first component: `|&(k, _)| k`.  An unstable sort may order equal keys in any way;
+            # the stable merge sort is one of the admitted results (docs/AlgoGen.md, Set 4)
+            lam = args[0]
+            ok = lam[0] == "closure" and len(lam[1]) == 1
+            if ok:
+                pt = strip_pref(lam[1][0])
+                ok = (pt[0] == "ptup" and len(pt[1]) == 2 and strip_pref(pt[1][0])[0] == "pvar"
+                      and strip_pref(pt[1][1])[0] == "pwild" and strip_wrappers(lam[2]) == ("var", strip_pref(pt[1][0])[1]))
+            if not ok:
+                raise TErr(f"`{unparse(e)}`: only `.{name}(|&(k, _)| k)` is supported")
+            pl = place_of(recv)
+            if pl is None:
+                raise TErr(f"`{unparse(e)}`: receiver is not a variable or field path")
+            pv = place_val(ctx, env, pl)
+            unify(pv.ty, LIST(TUP(NAT, TVar())), f"receiver of .{name}")
+            place_set(ctx, env, pl, f"sortByKey1 {pv.p()}")
+            return False
     if k == "mcall":
         recv, name, args = e[1], e[2], e[4]
         ep = elem_place(ctx, env, recv)
@@ -3547,6 +4091,8 @@ def emit_loop_def(ctx, env, key, what, S, brk_ty_of, item, build, self_param=Non
         if b.kind != "val":
             raise TErr(f"internal: captured binding `{b.rust}` is not a value")
     gl = []
+    if "ap" in frame.globals:
+        gl.append(("ap", "Nat"))
     if "g" in frame.globals:
         gl.append(("g", lean_ty(GRAPH_T)))
     if "inf" in frame.globals:
@@ -3555,7 +4101,7 @@ def emit_loop_def(ctx, env, key, what, S, brk_ty_of, item, build, self_param=Non
         gl.append(("fuel", "Nat"))
     if "recf" in frame.globals:
         sig = ctx.fntab[(ctx.sname, ctx.rfn)]
-        rt = " → ".join([ctx.sname] + [lean_ty(t, prec=1) for _, t in sig["params"]]
+        rt = " → ".join(([ctx.sname] if sig["self_mode"] is not None else []) + [lean_ty(t, prec=1) for _, t in sig["params"]]
                         + ["Res " + lean_ty(ctx.res_ty(), True)])
         gl.append(("recf", rt))
     sty = lean_ty(tuple_ty(S), True)
@@ -3586,6 +4132,14 @@ def mark_state_used(ctx, S):
 def list_iter(ctx, env, it):
     """the list a `for` iterates over."""
     s = strip_wrappers(it)
+    if s[0] == "rangeincl" and ctx.par and s[1] is not None and s[2] is not None:
+        hi = compile_expr(ctx, env, s[2], NAT)
+        unify(hi.ty, NAT, "range bound")
+        if strip_wrappers(s[1]) == ("lit", 0):
+            return Val(f"List.range ({hi.code} + 1)", LIST(NAT))
+        lo = compile_expr(ctx, env, s[1], NAT)
+        unify(lo.ty, NAT, "range bound")
+        return Val(f"range {lo.p()} ({hi.code} + 1)", LIST(NAT))
     if s[0] == "range":
         if s[1] is None or s[2] is None:
             raise TErr("an open range in `for` is outside the supported subset")
@@ -3639,6 +4193,27 @@ def item_param(ctx, pat, ty):
 def compile_for(ctx, env, e):
     pat, it, body = e[1], e[2], e[3]
     sit0 = strip_wrappers(it)
+    if ctx.par and sit0[0] == "mcall" and sit0[2] == "zip" and len(sit0[4]) == 1:
+        z = strip_wrappers(sit0[4][0])
+        sp = strip_pref(pat)
+        if z[0] == "mcall" and z[2] == "iter_mut" and not z[4]:
+            # `for (a, b) in A.zip(V.iter_mut()) { body }`: `b` is the exclusive reference to `V[i]` for the `i`-th item of
+            # `A` (the shorter side ends the loop): the element is read, the body runs on it, it is written back
+            vpl = place_of(z[1])
+            if sp[0] != "ptup" or len(sp[1]) != 2 or strip_pref(sp[1][1])[0] != "pvar" or vpl is None or vpl[1]:
+                raise TErr(f"`for {unparse_pat(pat)} in {unparse(it)}`: expected `for (a, b) in A.zip(v.iter_mut())`")
+            if contains_kind(body, ("break", "continue", "return", "try")):
+                raise TErr(f"`for .. in {unparse(it)}`: a body that leaves the loop early is outside the supported subset")
+            ctx.pipe_n += 1
+            idx = f"zi_{ctx.pipe_n}"
+            bname = strip_pref(sp[1][1])[1]
+            vvar = ("var", vpl[0])
+            new_body = [("expr", ("if", ("bin", ">=", ("var", idx), ("mcall", vvar, "len", None, [])),
+                                  [("expr", ("break", None), True)], None), True),
+                        ("let", ("pvar", bname, True), None, ("un", "*", ("mcall", vvar, "get_unchecked", None, [("var", idx)])), None)] \
+                + list(body) + \
+                [("expr", ("assign", "=", ("un", "*", ("mcall", vvar, "get_unchecked_mut", None, [("var", idx)])), ("var", bname)), True)]
+            return compile_for(ctx, env, ("for", ("ptup", [("pvar", idx, False), sp[1][0]]), ("mcall", sit0[1], "enumerate", None, []), new_body))
     if sit0[0] == "mcall" and sit0[2] == "zip" and len(sit0[4]) == 1 and strip_wrappers(sit0[4][0])[0] == "var":
         rname = strip_wrappers(sit0[4][0])[1]
         rb = env.get(rname)
@@ -3794,6 +4369,16 @@ def compile_loop(ctx, env, e, with_value):
 # ============================================================================================
 # 6. Functions, files, output
 # ============================================================================================
+def calls_self_static(node, rfn):
+    if isinstance(node, list):
+        return any(calls_self_static(x, rfn) for x in node)
+    if not isinstance(node, tuple) or not node:
+        return False
+    if node[0] == "call" and node[1] == ("path", ["Self", rfn]):
+        return True
+    return any(calls_self_static(x, rfn) for x in node[1:] if isinstance(x, (tuple, list)))
+
+
 def calls_self_method(node, rfn):
     if isinstance(node, list):
         return any(calls_self_method(x, rfn) for x in node)
@@ -3838,6 +4423,15 @@ def rust_ty(text, ctx_struct, aliases, bounds):
         return LIST(TUP(NAT, INT))
     if t == "BTreeSet<usize>":
         return SET(KA) if STRUCTS[ctx_struct].get("extern") else SET(TVar())
+    if t == "_":
+        return TVar()
+    m = re.match(r"(?:Arc|Mutex|ManuallyDrop)<(.*)>\Z", t)
+    if m:
+        return rust_ty(m.group(1), ctx_struct, aliases, bounds)     # sharing / direct access (DESIGN.md 4.2)
+    m = re.match(r"implIterator<Item=(.*)>\Z", t)
+    if m:
+        # a returned iterator is the list of the items it yields (they are computed when it is consumed)
+        return LIST(rust_ty(m.group(1), ctx_struct, aliases, bounds))
     m = re.match(r"(Option|Vec|VecDeque)<(.*)>\Z", t)
     if m:
         inner = rust_ty(m.group(2), ctx_struct, aliases, bounds)
@@ -3930,8 +4524,11 @@ def desugar(n):
 
 def translate_fn(sname, trait, rfn, lname, opts, params_text, ret_text, body_text, fntab, aliases):
     ctx = Ctx(sname, rfn, lname, fntab, aliases)
+    ctx.par = bool(opts.get("par"))
     CUR["graph"] = STRUCTS[sname]["graph"] or "Graph"
-    if trait and trait.startswith("@"):
+    if trait == "@free":
+        ctx.impl_label = "free function of the file"
+    elif trait and trait.startswith("@"):
         mname, src = trait[1:].split(":")
         ctx.impl_label = f"impl From<{src}> for {sname} (macro {mname}!)"
     else:
@@ -3992,9 +4589,9 @@ def translate_fn(sname, trait, rfn, lname, opts, params_text, ret_text, body_tex
     collect_ptr_aliases(stmts, ctx.ptr_alias)
     # a self-recursive method: structural recursion on fuel; the loop bodies get the recursive
     # function (already applied to the smaller fuel) as the parameter `recf`
-    ctx.recursive = calls_self_method(stmts, rfn)
+    ctx.recursive = calls_self_method(stmts, rfn) or (ctx.par and ctx.self_mode is None and calls_self_static(stmts, rfn))
     if ctx.recursive:
-        if ctx.self_mode is None:
+        if ctx.self_mode is None and not ctx.par:
             raise TErr("recursion is supported for methods only")
         fntab[(sname, rfn)] = dict(lean=lname, g=False, inf=False, fuel=True, self_mode=ctx.self_mode,
                                    params=[(n, t) for _, t, n in params], value_ty=ctx.value_ty, rec=True,
@@ -4010,6 +4607,8 @@ def translate_fn(sname, trait, rfn, lname, opts, params_text, ret_text, body_tex
         ctx.em.emit(f"pure {ctx.result(env, val)}")
     top = ctx.frames[0]
     gl = []
+    if "ap" in top.globals:
+        gl.append(("ap", "Nat"))
     if "g" in top.globals:
         gl.append(("g", lean_ty(GRAPH_T)))
     if "inf" in top.globals:
@@ -4021,8 +4620,8 @@ def translate_fn(sname, trait, rfn, lname, opts, params_text, ret_text, body_tex
     if ctx.recursive:
         gl = [x for x in gl if x[0] != "fuel"]
         ps = [f"({n} : {t})" for n, t in gl]
-        arg_tys = [sname] + [lean_ty(t, prec=1) for _, t, _ in params]
-        pats = ["self"] + [lean for lean, _, _ in params]
+        arg_tys = ([sname] if ctx.self_mode is not None else []) + [lean_ty(t, prec=1) for _, t, _ in params]
+        pats = (["self"] if ctx.self_mode is not None else []) + [lean for lean, _, _ in params]
         rty = f"Res {lean_ty(ctx.res_ty(), True)}"
         recapp = " ".join([name] + [n for n, _ in gl] + ["fuel"])
         sig = (f"def {name} " + " ".join(ps) + (" " if ps else "") + ": Nat → " + " → ".join(arg_tys) + f" →\n    {rty}\n"
@@ -4039,7 +4638,7 @@ def translate_fn(sname, trait, rfn, lname, opts, params_text, ret_text, body_tex
     text = "\n".join(ctx.defs) + ("\n" if ctx.defs else "") + doc + "\n" + sig + "\n" + "\n".join(ctx.em.lines) + "\n"
     text = resolve_types(text)
     fntab[(sname, rfn)] = dict(lean=lname, g="g" in top.globals, inf="inf" in top.globals,
-                               fuel=ctx.recursive or "fuel" in top.globals,
+                               fuel=ctx.recursive or "fuel" in top.globals, ap="ap" in top.globals,
                                self_mode=ctx.self_mode, params=[(n, t) for _, t, n in params], value_ty=ctx.value_ty,
                                rec=ctx.recursive, mutrefs=list(ctx.mutrefs),
                                ndefs=len(ctx.defs) + 1,
@@ -4081,7 +4680,7 @@ def structs_of(targets):
     """the structs a target list needs (with the structs their fields contain), in table order"""
     need = {r[0] for r in targets}
     for r in targets:
-        if r[1] and r[1].startswith("@"):
+        if r[1] and r[1].startswith("@") and ":" in r[1]:
             need.add(r[1].split(":")[1])
     grew = True
     while grew:
@@ -4161,6 +4760,8 @@ def load(repo, targets):
                 fns = {k: (v[0], v[1] + (" where " + w if "where" not in v[1] else ", " + w), v[2]) for k, v in fns.items()}
             blocks.append((trait, fns))
         blocks += macro_impls(region, sname)
+        if any(r[0] == sname and r[1] == "@free" for r in targets):
+            blocks.append(("@free", free_fns(region)))
         if info["item"] is not None:
             items = [squeeze(m.group(1)).replace(" ", "") for tr, b in impl_blocks(region, sname) if tr == "Iterator"
                      for m in re.finditer(r"type\s+Item\s*=\s*([^;]+);", b)]
@@ -4205,6 +4806,24 @@ namespace GraafVerif.AlgoGen
 
 '''
 
+HEADER4 = '''import GraafVerif.Model.AlgoGenRt4
+/-!
+# GENERATED by tools/translate_algo.py --set 4 from {repo}/src — do not edit
+
+Fourth generated file of the imperative-Rust-subset → pure-Lean translator (`docs/AlgoGen.md`,
+"Set 4"): the PARALLEL functions of `src/repr/adjacency_list/mod.rs` and
+`src/repr/adjacency_map/mod.rs` under the reading of DESIGN.md §4.2 — `available_parallelism()` is
+the parameter `ap`, a spawned closure is executed to completion at its spawn point (spawn order),
+`scope` / `join` are no-op barriers, `Arc` is sharing, `Mutex::lock` is direct access, a `Relaxed`
+`AtomicBool` is a plain Boolean cell.  `Thm/AlgoGen4.lean` proves every definition below equal to the
+hand-written model function with the explicit thread count that C17 (and the threaded parts of
+C02 / C11 / C12 / C14 / C15) are about.  Runtime: `Model/AlgoGenRt.lean` .. `Model/AlgoGenRt4.lean`.
+-/
+set_option linter.unusedVariables false
+namespace GraafVerif.AlgoGen
+
+'''
+
 SETS = {}
 GEN_ROWS = {}
 
@@ -4213,9 +4832,18 @@ def translate(repo, which=1):
     TVar.counter = 0
     TVARS.clear()
     targets, header = SETS[which]
+    ext = {}
+    if which == 4:
+        # the generated definitions of set 3 that set 4 calls (the PRNG, `AdjacencyMap::complement`): their signatures
+        ext = translate(repo, 3)[2]
+        TVar.counter = 0
+        TVARS.clear()
     GEN_ROWS.clear()
     srcs = load(repo, targets)
-    fntab = {}
+    fntab = dict(ext)
+    for r in targets:
+        if (r[0], r[2]) in fntab:
+            raise TErr(f"{r[0]}::{r[2]} is generated by an earlier set too")
     out = [header.replace("{repo}", repo)]
     declared = set()
     for sname, trait, rfn, lname, opts in targets:
@@ -4274,7 +4902,9 @@ def coverage_md(rows):
     lines = ["| file | impl | fn | status | generated defs / reason |", "|---|---|---|---|---|"]
     for r in rows:
         fn = STRUCTS[r[0]]["file"] if "dir" not in STRUCTS[r[0]] else STRUCTS[r[0]]["dir"] + "/" + STRUCTS[r[0]]["file"]
-        if r[1] and r[1].startswith("@"):
+        if r[1] == "@free":
+            label = "(free fn)"
+        elif r[1] and r[1].startswith("@"):
             label = f"impl From<{r[1].split(':')[1]}> for {r[0]} ({r[1][1:].split(':')[0]}!)"
         else:
             label = ("impl " + r[1] + " for " + r[0]) if r[1] else "impl " + r[0]
@@ -4287,6 +4917,7 @@ def main():
     SETS[1] = (TARGETS, HEADER)
     SETS[2] = (TARGETS2, HEADER2)
     SETS[3] = (TARGETS3, HEADER3)
+    SETS[4] = (TARGETS4, HEADER4)
     ap = argparse.ArgumentParser()
     ap.add_argument("--repo", default="/repo")
     ap.add_argument("--set", type=int, default=1, choices=sorted(SETS),
